@@ -157,13 +157,16 @@ class CollectionStore(object):
         ttl_now = mongomock.utcnow()
 
         with self._rwlock.reader():
-            expired_ids = [
-                doc['_id'] for doc in self._documents.values()
+            expired_keys = [
+                key for key, doc in self._documents.items()
                 if self._value_meets_expiry(doc.get(ttl_field_name), expiry, ttl_now)
             ]
 
-        for exp_id in expired_ids:
-            del self[exp_id]
+        # Remove by store key (an embedded-document _id is stored under its hashable form), and
+        # tolerate a concurrent expiry pass having removed the document already.
+        for key in expired_keys:
+            with self._rwlock.writer():
+                self._documents.pop(key, None)
 
     def _value_meets_expiry(self, val, expiry, ttl_now):
         val_to_compare = _get_min_datetime_from_value(val)
